@@ -1,6 +1,13 @@
 // ===== prelude/spawn_traits.rs — names the spawn unit needs =====
-pub enum ActorError { AlreadyStopped, Other }
+pub enum ActorError { AlreadyStopped, ServiceStillRunning, Timeout, SendFailed, Other }
 pub trait VStream: Sized { type Item; }
 pub trait StreamHandler<M>: Actor {}
 pub trait RestartableActor: Actor {}
-pub trait Service: Actor + Default {}
+pub trait Service: Actor + Default {
+    // service.rs Service::already_running (proved in unit svc: already_running.*): reads the registry under the lock, changes nothing
+    fn already_running(Tracked(w): Tracked<&mut World>) -> (r: Option<bool>)
+        ensures final(w).tasks == old(w).tasks && final(w).task_info == old(w).task_info, final(w).registry == final(w).reg_acq, final(w).reg_evictions == old(w).reg_evictions,
+            final(w).slots.dom() =~= final(w).slots.dom().union(old(w).slots.dom()),
+            !final(w).reg_acq.dom().contains(type_id::<Self>()) ==> r is None,
+            final(w).reg_acq.dom().contains(type_id::<Self>()) ==> r == Some(reg_live(final(w), final(w).reg_acq, type_id::<Self>()));
+}
